@@ -30,7 +30,7 @@ def load_known():
         kind, _, rest = line.partition(":")
         rest = rest.strip()
         toks = rest.split()
-        d = {"text": rest}
+        d = {"text": " ".join(t for t in toks if not t.startswith(("property=", "sig=")))}
         for t in toks:
             if t.startswith("property="):
                 d["property"] = t.split("=", 1)[1]
@@ -58,7 +58,7 @@ def run_worker(args):
     t0 = time.time()
     with open(logpath, "wb") as lf:
         try:
-            r = subprocess.run(cmd, env=env, stdout=lf, stderr=subprocess.STDOUT, timeout=timeout)
+            r = subprocess.run(cmd, env=env, stdin=subprocess.DEVNULL, stdout=lf, stderr=subprocess.STDOUT, timeout=timeout)
             rc = r.returncode
         except subprocess.TimeoutExpired:
             rc = -999
@@ -85,7 +85,7 @@ def read_nt(path):
 def replay_once(binpath, mode, path, env, verbose=False, timeout=300):
     cmd = [binpath, "replay", "--mode", mode, path] + (["-v"] if verbose else [])
     try:
-        r = subprocess.run(cmd, env=env, stdout=subprocess.PIPE, stderr=subprocess.STDOUT, timeout=timeout)
+        r = subprocess.run(cmd, env=env, stdin=subprocess.DEVNULL, stdout=subprocess.PIPE, stderr=subprocess.STDOUT, timeout=timeout)
         out = r.stdout.decode(errors="replace")
         return r.returncode, out
     except subprocess.TimeoutExpired:
